@@ -243,6 +243,8 @@ Q_C14 == {[BaseQ EXCEPT !.items = <<E(P(Fa(1))), E(NRx)>>],
           [BaseQ EXCEPT !.items = <<E(Fa(1)), <<"unnest", <<"rep", P(Fa(2))>>>> >>]}
 \* for ragged tables: no sort key / numeric aggregate over a field that may be absent (None keys raise inside sorted(): I2)
 Q_C14rag == {qq \in Q_C14 : (\A k \in 1..Len(qq.order) : qq.order[k] # Fa(2) /\ qq.order[k] # P(Fa(2))) /\ (\A k \in 1..Len(qq.items) : qq.items[k][1] # "agg" \/ qq.items[k][2] # "MAX")}
+\* over tables with None cells: without GROUP BY / ORDER BY (a None key has no order: Python's sorted() raises, outside the tables of C02 / C03)
+Q_C14ragN == {qq \in Q_C14rag : ~qq.hasgroup /\ qq.order = <<>>}
 \* for the JavaScript port: without the query whose failure is Python's None + str TypeError (null + "x" is "nullx" in JS)
 Q_C14js == {qq \in Q_C14 : qq.items # <<E(<<"cat", Fa(1), Fa(3)>>)>>}
 \* full scans of ragged tables (incl. the empty record) for the field-count warning
